@@ -3546,3 +3546,808 @@ grid("pcDelta", "g_kwargs_passthrough", _g_kwargs_passthrough,
 
 
 USES = _template_uses()  # (recomputed: templates were added after the first computation above)
+
+
+# =============================================================================================
+# gaps found by a review of every public signature and branch against the catalogue
+# =============================================================================================
+@heap
+def dict_treekw():
+    return {"linewidths": 0.5, "colors": "red"}
+
+
+@heap
+def dict_options():
+    return {"xatol": 1e-6, "maxiter": 50}
+
+
+@heap
+def dict_annotkw():
+    return {"size": 4}
+
+
+@heap
+def bins_list():
+    return [0, 1, 2, 3, 5, 8]
+
+
+@heap
+def bounds_arr():
+    return np.arange(0, 6, 1)
+
+
+@heap
+def df_gap():
+    return pd.DataFrame({"a": ["x_", "x", "x_", "x"], "b": ["y", "_y", "y", "_y"], "group": ["g1", "g1", "g2", "g2"]})
+
+
+@heap
+def df_dirty():
+    return pd.DataFrame({"CDR3B": ["cassf", " CASSF ", "CASSF", "CÄSSF"], "Epitope": ["flkekggl", "not-an-epitope", "GILGFVFTL", None],
+                         "TRBV": ["trbv7-2", "TRBV7-2 ", "TRBV99", "TRBV7-2*01"], "MHCA": ["hla-a*02", "HLA-A2", "B2M", "H2-Kb"]})
+
+
+@heap
+def df_mouse():
+    return pd.DataFrame({"TRBV": ["TRBV13-2*01", "TRBV1"], "TRBJ": ["TRBJ2-7", "TRBJ1-1"], "MHCA": ["H2-Kb", "H2-IAb"],
+                         "CDR3B": ["CASSF", "CASGDAGGYEQYF"]})
+
+
+@heap
+def df_tcr_dup():
+    df = df_tcr()
+    df.index = [1, 1, 2, 2, 3, 3]
+    return df
+
+
+@heap
+def df_tcr_multi():
+    df = df_tcr()
+    df.index = pd.MultiIndex.from_product([["x", "y"], [1, 2, 3]])
+    return df
+
+
+@heap
+def seqs_odd():
+    return ["CÄSSF", "CÄSF", " CASSF", "CASSF\n", "ＣＡＳ", "cassf"]
+
+
+@heap
+def seqs_long300():
+    return ["A" * 300, "A" * 299 + "C", "C" * 300]
+
+
+@heap
+def linkage_arr():
+    import scipy.cluster.hierarchy as hc
+    from scipy.spatial.distance import squareform
+
+    d = squareform(prs.pdist(seqs_eqlen()).astype(float))
+    return hc.linkage(squareform(d))
+
+
+def _lu(H):
+    from scipy.spatial.distance import squareform
+
+    d = squareform(prs.pdist(H["seqs_eqlen"]).astype(float))
+    return pd.DataFrame(d), pd.DataFrame(d * 2)
+
+
+def cb_half(a, b):
+    return 0.5 * cb_plain_lev(a, b)
+
+
+def cb_npfloat(a, b):
+    return np.float64(0.5 * cb_plain_lev(a, b))
+
+
+# 1-6: output types, max_custom_distance and callable distances for every search function and the DB lookups
+def _g_out(H, fn, out, mode, seqs2):
+    f = getattr(prs, fn)
+    kw = dict(output_type=out, custom_distance=mode)
+    if callable(mode):
+        kw["max_custom_distance"] = 4
+    if fn in ("symdel", "nearest_neighbor"):
+        kw["seqs2"] = seqs2
+        kw["max_edits"] = 2
+    return f(H["seqs_arr"] if fn != "symdel" else H["seqs_list"], **kw)
+
+
+grid("symdel", "g_out", _g_out,
+     dict(fn=[(x, x) for x in ("hash_based", "symdel", "nearest_neighbor", "kdtree")], out=[("coo", "coo_matrix"), ("nd", "ndarray")], mode=MODES,
+          seqs2=[("none", None), ("l2", "H:seqs_list2"), ("tuple", "H:seqs_tuple")]), cap=20)
+
+
+def _g_db_out(H, db, out, mode, queries):
+    return H[db].lookup(queries, output_type=out, custom_distance=mode)
+
+
+grid("db", "g_db_out", _g_db_out,
+     dict(db=[("symdel", "symdel_db"), ("lookup", "lookup_db")], out=[("coo", "coo_matrix"), ("nd", "ndarray")],
+          mode=[("lev", None), ("ham", "hamming")], queries=[("arr", "H:seqs_arr"), ("empty", []), ("q", ["CAAF", "CCCC", "CAAA"])]), cap=14)
+
+
+@op("db", post=sorted_list)
+def lookupdb_pdist_mode(H):
+    return [sorted(H["lookup_db"].lookup(H["db_ref_list2"], pdist_mode=True)), sorted(H["lookup_db"].lookup(H["db_ref_list2"])),
+            sorted(H["lookup_db"].lookup(H["db_ref_list2"], pdist_mode=True, custom_distance="hamming"))]
+
+
+def _g_mcd(H, fn, mode, mcd):
+    if fn == "lookupdb":
+        return sorted(H["lookup_db"].lookup(H["seqs_arr"], custom_distance=mode, max_custom_distance=mcd))
+    if fn == "symdeldb":
+        return sorted(H["symdel_db"].lookup(H["seqs_arr"], custom_distance=mode, max_custom_distance=mcd))
+    return sorted(getattr(prs, fn)(H["seqs_arr"], custom_distance=mode, max_custom_distance=mcd))
+
+
+grid("symdel", "g_mcd", _g_mcd,
+     dict(fn=[(x, x) for x in ("hash_based", "symdel", "kdtree", "lookupdb", "symdeldb")], mode=[("lev", None), ("ham", "hamming")],
+          mcd=[("0", 0), ("1", 1), ("f", 1.5)]), cap=16)
+
+
+def _g_cb_inf(H, fn, cbk):
+    f = {"half": cb_half, "npf": cb_npfloat, "lev2": None}[cbk]
+    cb = f if f is not None else cb_lev2
+    if fn == "lookupdb":
+        return sorted(H["lookup_db"].lookup(H["seqs_arr"], custom_distance=cb))
+    if fn == "symdeldb":
+        return sorted(H["symdel_db"].lookup(H["seqs_arr"], custom_distance=cb))
+    if fn == "nn2":
+        return sorted(prs.nearest_neighbor(H["seqs_arr"], max_edits=2, custom_distance=cb, seqs2=H["seqs_list2"]))
+    if fn == "kdtree_nd":
+        return prs.kdtree(H["seqs_arr"], max_edits=2, custom_distance=cb, max_custom_distance=0.5, output_type="ndarray")
+    return sorted(getattr(prs, fn)(H["seqs_list"], max_edits=2 if fn != "hash_based" else 1, custom_distance=cb))
+
+
+grid("symdel", "g_cb_inf", _g_cb_inf,
+     dict(fn=[(x, x) for x in ("symdel", "hash_based", "kdtree", "nn2", "lookupdb", "symdeldb", "kdtree_nd")],
+          cbk=[("lev2", "lev2"), ("half", "half"), ("npf", "npf")]))
+
+
+# 7-13: plotting options never passed
+def _g_rankfreq_y(H, kw):
+    import matplotlib.pyplot as plt
+
+    fig, ax = plt.subplots()
+    kw = dict(kw)
+    for k_ in ("transform_x", "transform_y"):
+        if kw.get(k_):
+            kw[k_] = cb_log
+    return pp.rankfrequency(H["counts_arr"], ax=ax, **kw)
+
+
+grid("rankfreq", "g_rankfreq_y", _g_rankfreq_y,
+     dict(kw=[("ty", {"transform_y": True, "scaley": 3.0}), ("sy", {"scaley": 0.5}), ("txy", {"transform_x": True, "transform_y": True, "normalize_y": True}),
+              ("drawstyle", {"where": "mid", "lw": 2.0})]))
+
+
+@op("logos", slow=True)
+def seqlogos_vj_axes(H):
+    import matplotlib.pyplot as plt
+
+    fig, axes = plt.subplots(ncols=3)
+    return pp.seqlogos_vj(H["df_vj"], "cdr3", "v", "j", axes=axes)
+
+
+@op("logos", slow=True)
+def seqlogos_vj_two_axes(H):
+    import matplotlib.pyplot as plt
+
+    fig, axes = plt.subplots(ncols=2)
+    return pp.seqlogos_vj(H["df_vj"], "cdr3", "v", "j", axes=axes)
+
+
+@op("density")
+def density_other_figure(H):
+    import matplotlib.pyplot as plt
+
+    f1, a1 = plt.subplots()
+    f2, a2 = plt.subplots()
+    pp.density_scatter(H["xy_points"][0], H["xy_points"][1], ax=a1, cbar=True, bins=[5, 4])
+    return [f1, f2]
+
+
+def _g_density_kw(H, kw):
+    import matplotlib.pyplot as plt
+
+    fig, ax = plt.subplots()
+    kw = dict(kw)
+    disc = kw.pop("_disc", False)
+    if kw.get("trans"):
+        kw["trans"] = cb_log
+    d = H["xy_discrete"] if disc else H["xy_points"] + (11.0 if kw.get("trans") else 0.0)
+    return pp.density_scatter(d[0], d[1], ax=ax, discrete=disc, **kw)
+
+
+grid("density", "g_density_kw", _g_density_kw,
+     dict(kw=[("trans_sort", {"trans": True, "sort": True, "bins": 5, "cbar": True}), ("disc_trans", {"_disc": True, "trans": True}),
+              ("scatterkw", {"cmap": "magma", "vmin": 0, "alpha": 0.5, "marker": "s"}), ("dup_c", {"c": "red"})]))
+
+
+@op("legend")
+def legend_handler_vertical(H):
+    import matplotlib.pyplot as plt
+
+    fig, ax = plt.subplots()
+    (l1,) = ax.plot([0, 1], [0, 1], "-", color="C0")
+    (l2,) = ax.plot([0, 1], [1, 0], "--", color="C1")
+    leg = ax.legend([(l1, l2)], ["pair"], handler_map={tuple: pp.HandlerTupleOffset(horizontal=False, pad=0.2)})
+    fig.canvas.draw()
+    return [fig, [t.get_text() for t in leg.get_texts()]]
+
+
+def _g_label_axes2(H, form):
+    import matplotlib.pyplot as plt
+
+    if form == "none":
+        fig, axes = plt.subplots(ncols=2)
+        pp.label_axes(fig, labels=None)
+    elif form == "flat":
+        fig, axes = plt.subplots(2, 2)
+        pp.label_axes(axes.flat, xycoords="figure fraction", xy=(0.5, 0.5), fontweight="normal", va="bottom", fontsize=7)
+    elif form == "grid2d":
+        fig, axes = plt.subplots(2, 2)
+        pp.label_axes(axes)
+    elif form == "iter":
+        fig, axes = plt.subplots(ncols=3)
+        pp.label_axes(fig, labels=iter("xyz"))
+    else:  # labels that are formatted through numpy's print options
+        fig, axes = plt.subplots(ncols=2)
+        pp.label_axes(fig, labels=[np.array([0.123456789, 1.0]), np.arange(3) / 3])
+    return fig
+
+
+grid("labelaxes", "g_label_axes2", _g_label_axes2, dict(form=[(x, x) for x in ("none", "flat", "grid2d", "iter", "arrays")]))
+
+
+# 14-20: clustermap family
+def _g_cms(H, kw):
+    L, U = _lu(H)
+    kw = dict(kw)
+    if kw.get("mask") is True:
+        kw["mask"] = pd.DataFrame(np.eye(6, dtype=bool))
+    if kw.get("tree_kws") == "H":
+        kw["tree_kws"] = H["dict_treekw"]
+    if kw.get("annot_kws") == "H":
+        kw["annot_kws"] = H["dict_annotkw"]
+    if kw.get("row_linkage") == "H":
+        kw["row_linkage"] = H["linkage_arr"]
+        kw["col_linkage"] = H["linkage_arr"]
+    return pp.clustermap_split(L, U, figsize=(3, 3), **kw)
+
+
+grid("clustermap", "g_cms", _g_cms,
+     dict(kw=[("z", {"z_score": 0}), ("std", {"standard_scale": 1}), ("mask", {"mask": True}), ("tree", {"tree_kws": "H"}),
+              ("colors", {"row_colors": list("rgbrgb"), "col_colors": pd.Series(list("rgbrgb")), "colors_ratio": 0.1, "dendrogram_ratio": (0.1, 0.3)}),
+              ("heat", {"vmin": 0, "vmax": 3, "cmap": "mako", "annot": True, "fmt": ".1f", "annot_kws": "H"}), ("nocol", {"col_cluster": False}),
+              ("method", {"method": "single", "metric": "cityblock"}), ("linkage", {"row_linkage": "H"})]), slow=True)
+
+
+@op("clustermap", slow=True)
+def clustermap_split_arrays(H):
+    L, U = _lu(H)
+    return pp.clustermap_split(L.to_numpy(), U.to_numpy(), figsize=(3, 3))
+
+
+def _g_scm(H, kw):
+    kw = dict(kw)
+    df = H[kw.pop("_df", "df_cluster")]
+    if kw.get("bounds") == "H":
+        kw["bounds"] = H["bounds_arr"]
+    if kw.get("meta_columns") == "H":
+        kw["meta_columns"] = H["list_meta"]
+    if kw.get("tree_kws") == "H":
+        kw["tree_kws"] = H["dict_treekw"]
+    mt = kw.get("meta_to_colors")
+    if mt == "tab":
+        kw["meta_to_colors"] = [pp.labels_to_colors_tableau]
+    elif mt == "short":
+        kw["meta_to_colors"] = [pp.labels_to_colors_hls]
+    return pp.similarity_clustermap(df, **kw)
+
+
+grid("clustermap", "g_scm", _g_scm,
+     dict(kw=[("tcr_ab", {"_df": "df_tcr", "alpha_column": "CDR3A", "beta_column": "CDR3B"}), ("tcr_b", {"_df": "df_tcr", "alpha_column": None, "beta_column": "CDR3B"}),
+              ("tcr_a", {"_df": "df_tcr", "alpha_column": "CDR3A", "beta_column": None}), ("bounds_arr", {"bounds": "H"}), ("bounds_list", {"bounds": [0, 1, 2, 3, 4]}),
+              ("bounds_tuple", {"bounds": (0, 2, 4, 8)}), ("meta_empty", {"meta_columns": []}), ("meta_tuple", {"meta_columns": ("epitope",)}),
+              ("meta_str", {"meta_columns": "epitope"}), ("mappers_only", {"meta_to_colors": "tab"}), ("mappers_short", {"meta_columns": "H", "meta_to_colors": "short"}),
+              ("nan_meta", {"_df": "df_cluster_nan", "meta_columns": ["epitope"]}), ("nan_seq", {"_df": "df_cluster_nan_seq"}), ("cmap_dup", {"cmap": "mako"}),
+              ("late_attr", {"cbar_pos": None, "xticklabels": True, "annot": True, "dendrogram_ratio": 0.2}),
+              ("heatkw", {"yticklabels": list("abcdefgh"), "rasterized": False, "tree_kws": "H", "vmax": 4}),
+              ("none_dicts", {"cbar_kws": None}), ("empty_dicts", {"cbar_kws": {}, "linkage_kws": {}, "cluster_kws": {"t": 2}})]), rand=True, slow=True)
+
+
+def _g_drawn(H, what):
+    import matplotlib.pyplot as plt
+
+    if what == "clustermap":
+        cg, _, _ = pp.similarity_clustermap(H["df_cluster"])
+        cg.fig.canvas.draw()
+        return cg
+    fig, ax = plt.subplots()
+    if what == "rankfreq":
+        pp.rankfrequency(H["counts_arr"], ax=ax)
+    elif what == "density":
+        pp.density_scatter(H["xy_points"][0], H["xy_points"][1], ax=ax, cbar=True, bins=5)
+    else:
+        fig, axes = plt.subplots(ncols=3)
+        pp.seqlogos_vj(H["df_vj"], "cdr3", "v", "j", axes=axes)
+    fig.canvas.draw()
+    return fig
+
+
+grid("clustermap", "g_drawn", _g_drawn, dict(what=[(x, x) for x in ("clustermap", "rankfreq", "density", "vj")]), rand=True, slow=True)
+
+
+# 21-26: pcDelta family
+def _g_pcdelta_maxseqs(H, which):
+    if which == "two":
+        return prs.pcDelta(H["seqs_list"], H["seqs_list2"], maxseqs=3, bins=H["bins_arr"])
+    if which == "tbl":
+        return prs.pcDelta(H["df_tcr"], maxseqs=4, bins=H["bins_arr"])
+    if which == "tbl2":
+        return prs.pcDelta(H["df_tcr"], H["df_tcr2"], maxseqs=2)
+    if which == "tuple":
+        return prs.pcDelta((H["seqs_eqlen"], H["seqs_eqlen"]), maxseqs=4)
+    if which == "grouped":
+        return prs.pcDelta_grouped(H["df_cluster"], "epitope", "cdr3b", bins=H["bins_arr"], maxseqs=2)
+    return prs.pcDelta_grouped_cross(H["df_cluster"], "donor", "cdr3a", condensed=True, bins=H["bins_arr"], maxseqs=3)
+
+
+grid("pcDelta", "g_pcdelta_maxseqs", _g_pcdelta_maxseqs, dict(which=[(x, x) for x in ("two", "tbl", "tbl2", "tuple", "grouped", "cross")]), rand=True)
+
+
+def _g_pcdelta_misc(H, which):
+    if which == "grouped_metric":
+        return prs.pcDelta_grouped(H["df_cluster"], "epitope", "cdr3b", bins=H["bins_arr"], metric=H["metric_wlev"])
+    if which == "cross_metric":
+        return prs.pcDelta_grouped_cross(H["df_cluster"], "donor", "cdr3b", bins=0, metric=H["metric_lev"])
+    if which == "by_func":
+        return prs.pcDelta_grouped(H["df_cluster"], lambda i: i % 2, "cdr3b", bins=H["bins_arr"])
+    if which == "by_series":
+        return prs.pc_grouped_cross(H["df_cluster"], H["df_cluster"]["donor"], "cdr3b")
+    if which == "cat_group":
+        return prs.pcDelta_grouped(H["df_categorical"], "a", "group", bins=H["bins_arr"])
+    if which == "cat_cross":
+        return prs.pcDelta_grouped_cross(H["df_categorical"], "a", "group", bins=0)
+    if which == "cat_cond":
+        return prs.pc_conditional(H["df_categorical"], "a", "b")
+    if which == "bins_npint":
+        return prs.pcDelta_grouped(H["df_cluster"], "epitope", "cdr3b", bins=np.int64(6))
+    if which == "bins_np0":
+        return prs.pcDelta(H["seqs_list"], bins=np.int64(0))
+    if which == "bins_auto":
+        return prs.pcDelta(H["seqs_list"], bins="auto")
+    if which == "bins_false":
+        return prs.pcDelta(H["seqs_list"], bins=False)
+    if which == "bins_series":
+        return prs.pcDelta(H["seqs_list"], bins=pd.Series(range(6)))
+    if which == "bins_list":
+        return prs.pcDelta(H["seqs_list"], bins=H["bins_list"])
+    if which == "tbl_bins0":
+        return [prs.pcDelta(H["df_tcr"], bins=0), prs.pcDelta(H["df_tcr"], H["df_tcr2"], bins=0, metric=H["metric_beta"])]
+    if which == "beta_default":
+        return [prs.pcDelta(H["df_beta"], bins=H["bins_arr"]), prs.hierarchical_clustering(H["df_beta"])]
+    if which == "stats_default":
+        return prs.pcDelta(H["df_stats"], bins=H["bins_arr"])
+    return prs.pcDelta(H["df_tcr"], H["seqs_list"])
+
+
+grid("pcDelta", "g_pcdelta_misc", _g_pcdelta_misc,
+     dict(which=[(x, x) for x in ("grouped_metric", "cross_metric", "by_func", "by_series", "cat_group", "cat_cross", "cat_cond", "bins_npint", "bins_np0",
+                                  "bins_auto", "bins_false", "bins_series", "bins_list", "tbl_bins0", "beta_default", "stats_default", "mixed")]))
+
+
+def _g_gap(H, which):
+    d = H["df_gap"]
+    if which == "pcj":
+        return [prs.pc_joint(d, ["a", "b"]), prs.pc_joint(d, ["a", "b"], gap_token="|"), prs.pc_joint(d, ["a", "b"], d, gap_token="")]
+    if which == "std":
+        return [prs.stdpc_joint(d, ["a", "b"]), prs.stdpc_joint(d, ["a", "b"], gap_token="|")]
+    return [prs.stdrenyi2_entropy(d, ["a", "b"], gap_token="|"), prs.stdrenyi2_entropy(d, ["a", "b"]), prs.renyi2_entropy(d, ["a", "b"])]
+
+
+grid("pc", "g_gap", _g_gap, dict(which=[(x, x) for x in ("pcj", "std", "renyi")]))
+
+
+# 27-29: neighbours / graph
+def _g_nnn(H, maxdistance):
+    return sorted(prs.next_nearest_neighbors("CAD", cb_hamming_nb, maxdistance=maxdistance))
+
+
+grid("neighbors", "g_nnn", _g_nnn, dict(maxdistance=[("0", 0), ("1", 1), ("3", 3)]))
+
+
+def _g_graph2(H, which):
+    t, nodes = H["triplets_arr"], H["nodes_list"]
+    if which == "walktrap":
+        return prs.graph_clustering(t, nodes, clustering="walktrap", steps=3)
+    if which == "label_propagation":
+        return prs.graph_clustering(t, nodes, clustering="label_propagation")["cluster"].nunique()
+    if which == "infomap":
+        return prs.graph_clustering(t, nodes, clustering="infomap", trials=3)
+    if which == "edge_betweenness":
+        return prs.graph_clustering(t, nodes, clustering="edge_betweenness")
+    if which == "levels":
+        return prs.graph_clustering(t, nodes, clustering="multilevel", return_levels=True)
+    if which == "leiden_weights":
+        return prs.graph_clustering(t, nodes, clustering="leiden", weights=[1.0 + (i % 3) for i in range(len(t))])
+    if which == "leiden_res":
+        return prs.graph_clustering(t, nodes, clustering="leiden", resolution=0.5, n_iterations=-1)
+    if which == "float":
+        return prs.graph_clustering(t.astype(float), nodes)
+    if which == "frame":
+        return prs.graph_clustering(pd.DataFrame(t), nodes)
+    if which == "from_kdtree":
+        return prs.graph_clustering(prs.kdtree(H["seqs_list"]), H["seqs_list"])
+    if which == "from_coo":
+        return prs.graph_clustering(prs.symdel(H["seqs_arr"], output_type="coo_matrix"), H["seqs_arr"])
+    if which == "empty":
+        return prs.graph_clustering([], nodes)
+    return prs.graph_clustering(t[:2], nodes, clustering="DBSCAN")
+
+
+grid("graph", "g_graph2", _g_graph2,
+     dict(which=[(x, x) for x in ("walktrap", "label_propagation", "infomap", "edge_betweenness", "levels", "leiden_weights", "leiden_res", "float", "frame",
+                                  "from_kdtree", "from_coo", "empty", "dbscan2")]), rand=True)
+
+
+# 30-33: standardize_dataframe, index kinds
+def _g_std2(H, which):
+    if which == "dirty":
+        return prs.standardize_dataframe(H["df_dirty"], suppress_warnings=True)
+    if which == "dirty_strict":
+        return prs.standardize_dataframe(H["df_dirty"], strict_cdr3_standardization=True, suppress_warnings=True)
+    if which == "dirty_warn":
+        return prs.standardize_dataframe(H["df_dirty"])
+    if which == "dirty_int":
+        d = H["df_dirty"].astype(object)
+        d.iloc[3, 0] = 12
+        return prs.standardize_dataframe(d, suppress_warnings=True)
+    if which == "mouse":
+        return prs.standardize_dataframe(H["df_mouse"], species="MusMusculus", tcr_precision="allele", suppress_warnings=True)
+    if which == "object_na":
+        d = H["df_raw"].astype(object)
+        d.iloc[0, 1] = pd.NA
+        return prs.standardize_dataframe(d, suppress_warnings=True)
+    if which == "category":
+        d = H["df_raw"].copy()
+        d["TRBV"] = d["TRBV"].astype("category")
+        return prs.standardize_dataframe(d, suppress_warnings=True)
+    if which == "empty":
+        return prs.standardize_dataframe(H["df_raw"].iloc[:0], suppress_warnings=True)
+    if which == "mapper_callable":
+        d = H["df_raw_misnamed"].rename(columns={"foo": "trbv", "bar": "cdr3b", "baz": "trbj"})
+        return prs.standardize_dataframe(d, col_mapper=str.upper, suppress_warnings=True)
+    if which == "mapper_proxy":
+        import types
+
+        return prs.standardize_dataframe(H["df_raw_misnamed"], col_mapper=types.MappingProxyType(H["dict_colmapper"]), suppress_warnings=True)
+    if which == "bad_precision":
+        return prs.standardize_dataframe(H["df_raw"], tcr_precision="exon", suppress_warnings=True)
+    s_ = prs.standardize_dataframe(H["df_raw"], suppress_warnings=True)
+    if which == "then_cdrall":
+        return H["metric_cdrall"].calc_pdist_vector(s_)
+    if which == "then_cdr3":
+        return H["metric_cdr3"].calc_pdist_vector(s_)
+    return prs.pcDelta(s_[["TRBV", "CDR3B"]].dropna(), bins=H["bins_arr"])
+
+
+grid("standardize", "g_std2", _g_std2,
+     dict(which=[(x, x) for x in ("dirty", "dirty_strict", "dirty_warn", "dirty_int", "mouse", "object_na", "category", "empty", "mapper_callable", "mapper_proxy",
+                                  "bad_precision", "then_cdrall", "then_cdr3", "then_pcdelta")]))
+
+
+def _g_index_kinds(H, df, fn):
+    X = H[df]
+    if fn == "cdrall":
+        return H["metric_cdrall"].calc_pdist_vector(X)
+    if fn == "downsample":
+        return prs.downsample(X, 3)
+    if fn == "pcDelta":
+        return prs.pcDelta(X, maxseqs=4)
+    if fn == "hclust":
+        return prs.hierarchical_clustering(X)
+    return prs.nearest_neighbor_tcrdist(X)
+
+
+grid("metric", "g_index_kinds", _g_index_kinds,
+     dict(df=[("dup", "df_tcr_dup"), ("multi", "df_tcr_multi")], fn=[(x, x) for x in ("cdrall", "downsample", "pcDelta", "hclust", "tcrdist")]), rand=True, io=True)
+
+
+# 34: metric constructor values of other types
+def _g_metric_ctor(H, which):
+    from pyrepseq.metric import WeightedLevenshtein
+
+    if which == "alpha_half":
+        return tm.Cdr3Levenshtein(alpha_weight=0.5).calc_pdist_vector(H["df_tcr"])
+    if which == "cdr1_zero":
+        return tm.CdrLevenshtein(cdr1_weight=0).calc_cdist_matrix(H["df_tcr"], H["df_tcr2"])
+    if which == "ins_float":
+        return WeightedLevenshtein(insertion_weight=1.5).calc_pdist_vector(H["seqs_arr"])
+    if which == "np_ints":
+        return WeightedLevenshtein(np.int64(2), np.int64(2), np.int64(1)).calc_pdist_vector(H["seqs_arr"])
+    return WeightedLevenshtein(1.0, 1.0, 1.0).calc_pdist_vector(H["seqs_arr"])
+
+
+grid("metric", "g_metric_ctor", _g_metric_ctor, dict(which=[(x, x) for x in ("alpha_half", "cdr1_zero", "ins_float", "np_ints", "ones_float")]))
+
+
+# 35: empty and single-element inputs
+def _g_empty(H, which):
+    calls = {
+        "lev_pdist": lambda: H["metric_lev"].calc_pdist_vector([]),
+        "lev_cdist": lambda: H["metric_lev"].calc_cdist_matrix(H["seqs_arr"], []),
+        "pdist": lambda: prs.pdist([]),
+        "cdist": lambda: prs.cdist([], H["seqs_list2"]),
+        "pcDelta": lambda: prs.pcDelta([], bins=H["bins_arr"]),
+        "hclust": lambda: prs.hierarchical_clustering([]),
+        "kdtree1": lambda: prs.kdtree(["CAAA"]),
+        "symdel1": lambda: prs.symdel(["CAAA"], output_type="ndarray"),
+        "pairs": lambda: prs.find_neighbor_pairs([]),
+        "numbers": lambda: prs.calculate_neighbor_numbers([]),
+        "pc": lambda: prs.pc([]),
+        "subsample": lambda: prs.subsample([], 0),
+        "colors": lambda: pp.labels_to_colors_hls([]),
+        "regex1": lambda: prs.seqs_to_regex(["CASSF"], align=False),
+    }
+    return calls[which]()
+
+
+grid("validation", "g_empty", _g_empty,
+     dict(which=[(x, x) for x in ("lev_pdist", "lev_cdist", "pdist", "cdist", "pcDelta", "hclust", "kdtree1", "symdel1", "pairs", "numbers", "pc", "subsample",
+                                  "colors", "regex1")]), rand=True)
+
+
+@op("kdtree", pool=True)
+def kdtree_single_ncpu2(H):
+    return prs.kdtree(["CAAA"], n_cpu=2)
+
+
+# 36-42: search functions, remaining argument forms
+def _g_search_misc(H, which):
+    calls = {
+        "hash_k2": lambda: sorted(prs.hash_based(H["seqs_short"], max_edits=2)),
+        "hash_k2_ham": lambda: sorted(prs.hash_based(H["seqs_short"], max_edits=2, custom_distance="hamming")),
+        "hash_ignored": lambda: sorted(prs.hash_based(H["seqs_arr"], max_returns=1, n_cpu=3, progress=True)),
+        "lookupdb_series": lambda: [sorted(prs.LookupDB(H["seqs_series"]).seq_dict.items()), sorted(prs.LookupDB(H["seqs_series"]).lookup(H["seqs_arr"]))],
+        "lookupdb_tuple": lambda: sorted(prs.LookupDB(H["seqs_tuple"]).lookup(H["seqs_arr"])),
+        "lookupdb_ro": lambda: sorted(prs.LookupDB(H["seqs_readonly"]).lookup(H["seqs_arr"])),
+        "lookupdb_iter": lambda: sorted(prs.LookupDB(iter(H["seqs_tuple"])).lookup(H["seqs_arr"])),
+        "symdeldb_named": lambda: sorted(prs.SymdelDB(H["seqs_named_series"], 1).lookup(["CAAA"])),
+        "symdeldb_k0": lambda: sorted(prs.SymdelDB(H["seqs_arr"], 0).lookup(H["seqs_arr"])),
+        "lookupdb_k0": lambda: sorted(H["lookup_db"].lookup(H["seqs_arr"], max_edits=0)),
+        "symdeldb_progress": lambda: sorted(H["symdel_db"].lookup(H["seqs_arr"], progress=True)),
+        "symdel_progress_noseqs2": lambda: sorted(prs.symdel(H["seqs_list"], progress=True)),
+        "lookupdb_progress": lambda: sorted(H["lookup_db"].lookup(H["seqs_arr"], progress=True)),
+        "symdeldb_progress_iter": lambda: sorted(H["symdel_db"].lookup(iter(["CAAA"]), progress=True)),
+        "kdtree_c20": lambda: sorted(prs.kdtree(H["seqs_list"], max_edits=2, compression=20)),
+        "kdtree_c7": lambda: sorted(prs.kdtree(H["seqs_list"], max_edits=2, compression=7)),
+        "kdtree_c2_5": lambda: sorted(prs.kdtree(H["seqs_list"], max_edits=2, compression=2.5)),
+        "kdtree_c0": lambda: sorted(prs.kdtree(H["seqs_list"], max_edits=2, compression=0)),
+        "kdtree_ham_coo": lambda: prs.kdtree(H["seqs_arr"], custom_distance="hamming", output_type="coo_matrix"),
+        "kdtree_cb_coo": lambda: prs.kdtree(H["seqs_arr"], max_edits=2, custom_distance=cb_lev2, max_custom_distance=4, output_type="coo_matrix", max_returns=1),
+        "nn_positional": lambda: prs.nearest_neighbor(H["seqs_arr"], 2, None, 1, "hamming", 1.0, "ndarray", H["seqs_tuple"]),
+        "symdel_set": lambda: prs.symdel(H["seqs_set"]),
+        "symdel_ignored": lambda: sorted(prs.symdel(H["seqs_list"], max_returns=1, n_cpu=4)),
+        "symdel_empty_seqs2": lambda: sorted(prs.symdel(H["seqs_list"], seqs2=[])),
+        "symdel_same_object": lambda: sorted(prs.symdel(H["seqs_arr"], seqs2=H["seqs_arr"])),
+        "symdel_series_both": lambda: sorted(prs.symdel(H["seqs_series_b"], seqs2=H["seqs_series_b"])),
+        "odd_symdel": lambda: sorted(prs.symdel(H["seqs_odd"])),
+        "odd_hash": lambda: sorted(prs.hash_based(H["seqs_odd"])),
+        "odd_kdtree": lambda: sorted(prs.kdtree(H["seqs_odd"])),
+        "odd_metric": lambda: [H["metric_lev"].calc_pdist_vector(H["seqs_odd"]), H["metric_wlev"].calc_cdist_matrix(H["seqs_odd"], H["seqs_odd"])],
+        "odd_db": lambda: [sorted(H["lookup_db"].lookup(H["seqs_odd"])), sorted(H["symdel_db"].lookup(H["seqs_odd"]))],
+        "long_symdel": lambda: sorted(prs.symdel(H["seqs_long300"])),
+        "long_kdtree": lambda: sorted(prs.kdtree(H["seqs_long300"])),
+        "long_metric": lambda: [H["metric_lev"].calc_pdist_vector(H["seqs_long300"]), H["metric_wlev"].calc_cdist_matrix(H["seqs_long300"], H["seqs_long300"])],
+        "long_db": lambda: sorted(H["symdel_db"].lookup(H["seqs_long300"])),
+    }
+    return calls[which]()
+
+
+grid("symdel", "g_search_misc", _g_search_misc, dict(which=[(x, x) for x in (
+    "hash_k2", "hash_k2_ham", "hash_ignored", "lookupdb_series", "lookupdb_tuple", "lookupdb_ro", "lookupdb_iter", "symdeldb_named", "symdeldb_k0",
+    "lookupdb_k0", "symdeldb_progress", "symdel_progress_noseqs2", "lookupdb_progress", "symdeldb_progress_iter", "kdtree_c20", "kdtree_c7", "kdtree_c2_5",
+    "kdtree_c0", "kdtree_ham_coo", "kdtree_cb_coo", "nn_positional", "symdel_set", "symdel_ignored", "symdel_empty_seqs2", "symdel_same_object",
+    "symdel_series_both", "odd_symdel", "odd_hash", "odd_kdtree", "odd_metric", "odd_db", "long_symdel", "long_kdtree", "long_metric", "long_db")]), cap=60)
+
+
+# 43-52: statistics, option forms
+def _g_stats_misc(H, which):
+    d = H["df_stats"]
+    calls = {
+        "on_ndarray": lambda: prs.pc_grouped_cross(d, "group", np.array(["a", "b"])),
+        "on_index": lambda: prs.pc_conditional(d, "group", pd.Index(["a", "b"])),
+        "on_tuple": lambda: prs.pc_conditional(d, "group", ("a", "b")),
+        "by_tuple": lambda: prs.pc_conditional(d, ("group",), "a"),
+        "by_ndarray": lambda: prs.pc_conditional(d, np.array(["group"]), "a"),
+        "features_tuple": lambda: prs.renyi2_entropy(d, ("a", "b")),
+        "by_empty": lambda: prs.renyi2_entropy(d, "a", by=[]),
+        "pc_joint_str": lambda: prs.pc_joint(d, "a"),
+        "base1": lambda: prs.renyi2_entropy(d, "a", base=1),
+        "base_np": lambda: [prs.renyi2_entropy(d, "a", base=np.float64(2)), prs.renyi2_entropy(d, "a", base=True)],
+        "weights_ignored": lambda: prs.renyi2_entropy(d, "a", group_weights=H["weights_arr"]),
+        "gap_ignored": lambda: prs.stdrenyi2_entropy(d, "a", gap_token="|"),
+        "std_badkw": lambda: prs.stdrenyi2_entropy(d, ["a", "b"], no_such=1),
+        "chao_series": lambda: prs.chao1(H["counts_series"]),
+        "jaccard_empty": lambda: prs.jaccard_index([], []),
+        "varpc_list": lambda: prs.varpc_n(H["counts_list"]),
+        "numbers_listref": lambda: prs.calculate_neighbor_numbers(H["seqs_arr"], reference=H["ref_list"]),
+        "isdist1_series": lambda: prs.isdist1("CAAF", H["seqs_series"]),
+        "downsample_set": lambda: prs.downsample(H["seqs_set"], 3),
+        "downsample_neg": lambda: prs.downsample(H["seqs_list"], -1),
+        "subsample_float_counts": lambda: prs.subsample(np.array([1.5, 2.0]), 2),
+        "regex_unequal": lambda: prs.seqs_to_regex(H["seqs_list"], align=False),
+        "pl_alpha1": lambda: prs.powerlaw_sample(size=3.0, xmin=1, alpha=np.float64(1.0)),
+        "pl_xmin_small": lambda: prs.powerlaw_sample(size=4, xmin=0.2, alpha=1.5),
+        "pl_zero": lambda: prs.powerlaw_sample(0),
+        "mle_cmin_half": lambda: prs.powerlaw_mle_alpha(H["counts_arr"], cmin=0.5, method="continuitycorrection"),
+        "mle_cmin0": lambda: prs.powerlaw_mle_alpha(H["counts_arr"], cmin=0, method="simple"),
+        "mle_series_tol": lambda: prs.powerlaw_mle_alpha(H["counts_series"], tol=1e-3),
+        "mle_cmin50": lambda: prs.powerlaw_mle_alpha(H["counts_arr"], cmin=50),
+        "mle_heap_options": lambda: prs.powerlaw_mle_alpha(H["counts_arr"], options=H["dict_options"], bounds=H["list_bounds"]),
+        "tuple_strings": lambda: [prs.pc(("CAAA", "CADA")), prs.pcDelta(("CAAA", "CADA"), bins=H["bins_arr"])],
+        "tuple_hclust": lambda: prs.hierarchical_clustering(("CAAAA", "CADAA")),
+        "tuple_unequal": lambda: prs.pc((H["seqs_eqlen"], H["seqs_eqlen"][:3])),
+        "tuple_series": lambda: prs.pc((H["seqs_series"], H["seqs_series_b"])),
+        "tuple3": lambda: prs.pc(tuple(H["seqs_tuple"][:3])),
+        "np_scalars": lambda: [prs.downsample(H["seqs_list"], np.int64(3)) is not None, prs.nndist_hamming("CADD", H["ref_set"], maxdist=np.int64(2)),
+                               sorted(prs.hamming_neighbors("CADK", "AC", variable_positions=np.array([1, 3])))],
+        "kdtree_np_edits": lambda: prs.kdtree(H["seqs_list"], max_edits=np.int64(1)),
+        "kdtree_np_ncpu": lambda: prs.kdtree(H["seqs_list"], n_cpu=np.int64(1)),
+        "kdtree_np_returns": lambda: prs.kdtree(H["seqs_list"], max_returns=np.int64(2)),
+        "kdtree_np_mcd": lambda: prs.kdtree(H["seqs_list"], custom_distance="hamming", max_custom_distance=np.float64(2.0)),
+        "kdtree_bool_edits": lambda: prs.kdtree(H["seqs_list"], max_edits=True),
+    }
+    return calls[which]()
+
+
+grid("pc", "g_stats_misc", _g_stats_misc, dict(which=[(x, x) for x in (
+    "on_ndarray", "on_index", "on_tuple", "by_tuple", "by_ndarray", "features_tuple", "by_empty", "pc_joint_str", "base1", "base_np", "weights_ignored", "gap_ignored",
+    "std_badkw", "chao_series", "jaccard_empty", "varpc_list", "numbers_listref", "isdist1_series", "downsample_set", "downsample_neg", "subsample_float_counts",
+    "regex_unequal", "pl_alpha1", "pl_xmin_small", "pl_zero", "mle_cmin_half", "mle_cmin0", "mle_series_tol", "mle_cmin50", "mle_heap_options", "tuple_strings",
+    "tuple_hclust", "tuple_unequal", "tuple_series", "tuple3", "np_scalars", "kdtree_np_edits", "kdtree_np_ncpu", "kdtree_np_returns", "kdtree_np_mcd",
+    "kdtree_bool_edits")]), cap=60, rand=True)
+
+
+# 45-46: multimerge forms, explicit None / {} for dict-typed options
+def _g_merge2(H, which):
+    L = H["dfs_list"]
+    calls = {
+        "on_list": lambda: prs.multimerge(L[:2], ["key", "v"], suffixes=["L", "R"]),
+        "single": lambda: prs.multimerge(L[:1], "key"),
+        "short_suffixes": lambda: prs.multimerge(L, "key", suffixes=["L"]),
+        "tuple_suffixes": lambda: prs.multimerge(L, "key", suffixes=("a", "b", "c")),
+        "array_suffixes": lambda: prs.multimerge(L, "key", suffixes=np.array(["L", "R", "Z"])),
+        "generator": lambda: prs.multimerge((d for d in L), "key", suffixes=H["suffixes_list"], sort=True),
+        "dup_kw": lambda: prs.multimerge(H["dfs_indexed"], "index", left_index=True),
+        "indicator": lambda: prs.multimerge(H["dfs_indexed"], "index", indicator=True, validate="one_to_one"),
+    }
+    return calls[which]()
+
+
+grid("multimerge", "g_merge2", _g_merge2, dict(which=[(x, x) for x in ("on_list", "single", "short_suffixes", "tuple_suffixes", "array_suffixes", "generator",
+                                                                      "dup_kw", "indicator")]))
+
+
+def _g_none_dicts(H, which):
+    calls = {
+        "hclust_none": lambda: prs.hierarchical_clustering(H["seqs_list"], linkage_kws=None),
+        "hclust_empty_link": lambda: prs.hierarchical_clustering(H["seqs_list"], linkage_kws={}),
+        "hclust_empty_cluster": lambda: prs.hierarchical_clustering(H["seqs_list"], cluster_kws={}),
+        "hls_none": lambda: pp.labels_to_colors_hls(H["many_labels"], palette_kws=None),
+        "hls_empty": lambda: pp.labels_to_colors_hls(H["many_labels"], palette_kws={}),
+        "hls_h": lambda: pp.labels_to_colors_hls(H["many_labels"], palette_kws={"h": 0.5}),
+        "hls_cmap": lambda: pp.labels_to_colors_hls(H["many_labels"], palette_kws={"as_cmap": True}),
+        "hls_min0": lambda: pp.labels_to_colors_hls(H["many_labels"], min_count=0),
+        "hls_min100": lambda: pp.labels_to_colors_hls(H["many_labels"], min_count=100),
+        "tab_nan": lambda: pp.labels_to_colors_tableau(H["df_cluster_nan"]["donor"]),
+        "hls_categorical": lambda: pp.labels_to_colors_hls(pd.Categorical(H["many_labels"])),
+        "tab_2d": lambda: pp.labels_to_colors_tableau(np.array([[1, 2], [1, 3]])),
+        "hls_bool": lambda: pp.labels_to_colors_hls([True, False, True]),
+        "tcrdist_none": lambda: prs.nearest_neighbor_tcrdist(H["df_beta"], tcrdist_kwargs=None),
+        "tcrdist_empty": lambda: prs.nearest_neighbor_tcrdist(H["df_beta"], tcrdist_kwargs={}),
+        "tcrdist_kwargs_fwd": lambda: prs.nearest_neighbor_tcrdist(H["df_beta"], custom_distance="hamming", max_returns=1),
+        "tcrdist_coo": lambda: prs.nearest_neighbor_tcrdist(H["df_beta"], output_type="coo_matrix"),
+        "tcrdist_no_neighbors": lambda: prs.nearest_neighbor_tcrdist(H["df_beta"].iloc[[0, 3]]),
+        "tcrdist_no_v": lambda: prs.nearest_neighbor_tcrdist(H["df_beta"][["CDR3B"]]),
+        "tcrdist_gamma": lambda: prs.nearest_neighbor_tcrdist(H["df_beta"], chain="gamma"),
+        "tcrdist_nan_seq": lambda: prs.nearest_neighbor_tcrdist(H["df_cluster_nan_seq"].rename(columns={"cdr3b": "CDR3B"})),
+        "tcrdist_max0": lambda: prs.nearest_neighbor_tcrdist(H["df_beta"], max_tcrdist=0),
+    }
+    return calls[which]()
+
+
+grid("colors", "g_none_dicts", _g_none_dicts, dict(which=[(x, x) for x in (
+    "hclust_none", "hclust_empty_link", "hclust_empty_cluster", "hls_none", "hls_empty", "hls_h", "hls_cmap", "hls_min0", "hls_min100", "tab_nan",
+    "hls_categorical", "tab_2d", "hls_bool", "tcrdist_none", "tcrdist_empty", "tcrdist_kwargs_fwd", "tcrdist_coo", "tcrdist_no_neighbors", "tcrdist_no_v",
+    "tcrdist_gamma", "tcrdist_nan_seq", "tcrdist_max0")]), cap=40, rand=True, io=True)
+
+
+# 49: dtype variants of one table with missing values
+def _g_dtype_nan(H, dtype, fn):
+    d = H["df_stats_nan"]
+    if dtype == "object":
+        X = d.astype(object)
+    elif dtype == "string":
+        X = d.astype("string")
+    elif dtype == "category":
+        X = d.astype("category")
+    else:
+        X = d.astype(object)
+        X.iloc[0, 0] = float("inf")
+    calls = {
+        "pc": lambda: prs.pc(X), "pc_col": lambda: prs.pc(X["a"]), "pc_joint": lambda: prs.pc_joint(X, ["a", "b"]),
+        "pc_cond": lambda: prs.pc_conditional(X, "b", "a"), "overlap": lambda: [prs.overlap(X["a"], X["b"]), prs.jaccard_index(X["a"], X["b"])],
+        "colors": lambda: pp.labels_to_colors_hls(X["a"]),
+    }
+    return calls[fn]()
+
+
+grid("pc", "g_dtype_nan", _g_dtype_nan,
+     dict(dtype=[(x, x) for x in ("object", "string", "category", "inf")], fn=[(x, x) for x in ("pc", "pc_col", "pc_joint", "pc_cond", "overlap", "colors")]), rand=True)
+
+
+# 53-60: logos contents, neighbourhood callbacks and generators, ensure_numpy
+def _g_logos2(H, which):
+    import matplotlib.pyplot as plt
+
+    if which == "kwargs":
+        fig, ax = plt.subplots()
+        return pp.seqlogos(H["seqs_eqlen"], ax=ax, font_name="DejaVu Sans", stack_order="small_on_top", fade_below=0.5, vpad=0.1, baseline_width=1.0)
+    if which == "gaps":
+        return pp.seqlogos(["CA-SF", "C--SF", "CAWSF"])
+    if which == "lower":
+        return pp.seqlogos(["casf", "caSF"])
+    if which == "single":
+        return pp.seqlogos(["CASSF"])
+    if which == "array":
+        return pp.seqlogos(np.array(H["seqs_eqlen"]))
+    if which == "iter":
+        return pp.seqlogos(iter(H["seqs_eqlen"]))
+    d = H["df_vj"].copy()
+    if which == "vj_short_names":
+        d["v"] = ["V1", "V1", "TRBV6-9", np.nan]
+    elif which == "vj_ints":
+        d["v"] = [7, 7, 6, 2]
+    elif which == "vj_ties":
+        d["j"] = ["TRBJ1-1", "TRBJ2-7", "TRBJ1-1", "TRBJ2-7"]
+    else:
+        return pp.seqlogos_vj(H["df_cluster"], "cdr3b", "epitope", "donor")
+    return pp.seqlogos_vj(d, "cdr3", "v", "j")
+
+
+grid("logos", "g_logos2", _g_logos2, dict(which=[(x, x) for x in ("kwargs", "gaps", "lower", "single", "array", "iter", "vj_short_names", "vj_ints", "vj_ties",
+                                                                  "vj_unequal")]), slow=True)
+
+
+def _g_nb_forms(H, which):
+    calls = {
+        "isdist1_cb": lambda: [prs.isdist1("CAAF", H["ref_set"], neighborhood=cb_hamming_nb), prs.isdist1("CAAF", H["ref_set"], neighborhood=lambda x: iter(()))],
+        "numbers_ref_cb": lambda: prs.calculate_neighbor_numbers(H["seqs_arr"], reference=H["ref_set"], neighborhood=cb_hamming_nb),
+        "nnn_list": lambda: sorted(prs.next_nearest_neighbors("CAD", lambda x: list(prs.hamming_neighbors(x, "ACD")), maxdistance=2)),
+        "ham_empty_pos": lambda: sorted(prs.hamming_neighbors("CADK", alphabet="AC", variable_positions=())),
+        "ham_neg_pos": lambda: sorted(prs.hamming_neighbors("CADK", alphabet="AC", variable_positions=(1, -1))),
+        "ham_range": lambda: sorted(prs.hamming_neighbors("CADK", alphabet="AC", variable_positions=range(1, 3))),
+        "ham_bad_pos": lambda: sorted(prs.hamming_neighbors("CADK", alphabet="AC", variable_positions=[1, 9])),
+        "lev_empty": lambda: [sorted(prs.levenshtein_neighbors("", alphabet="AC")), sorted(prs.hamming_neighbors("", alphabet="AC"))],
+        "lev_default_alphabet": lambda: len(set(prs.levenshtein_neighbors("CAD"))),
+        "ham_iter_alphabet": lambda: sorted(prs.hamming_neighbors("CAD", alphabet=iter("AC"))),
+        "ensure_index": lambda: prs.ensure_numpy(pd.Index(H["seqs_list"])),
+        "ensure_frame": lambda: prs.ensure_numpy(H["df_stats"]),
+        "ensure_scalar": lambda: prs.ensure_numpy(np.str_("CAAA")),
+        "ensure_gen": lambda: prs.ensure_numpy(x for x in H["seqs_list"]).shape,
+        "ensure_cat": lambda: prs.ensure_numpy(H["df_categorical"]["a"]),
+        "pc_n_index": lambda: [prs.pc_n(pd.Index([3, 2, 1])), prs.pc_n(H["df_stats"][["n"]])],
+    }
+    return calls[which]()
+
+
+grid("neighbors", "g_nb_forms", _g_nb_forms, dict(which=[(x, x) for x in (
+    "isdist1_cb", "numbers_ref_cb", "nnn_list", "ham_empty_pos", "ham_neg_pos", "ham_range", "ham_bad_pos", "lev_empty", "lev_default_alphabet",
+    "ham_iter_alphabet", "ensure_index", "ensure_frame", "ensure_scalar", "ensure_gen", "ensure_cat", "pc_n_index")]), cap=30)
+
+
+USES = _template_uses()
